@@ -268,7 +268,16 @@ fn run_qf(cap: Option<usize>, ops: &str) -> String {
     }
     let (rx, spy) = BufferedSpyMetricSink::with_capacity(None, cap);
     let st = Arc::new((Mutex::new(GSt { armed: false, parked: false, open: false, log: vec![] }), Condvar::new()));
-    let q = QueuingMetricSink::from(Gate { inner: spy, st: st.clone() });
+    // how the queuing wrapper is constructed is decided by the case text: every constructor / builder configuration
+    // must flush the wrapped sink the same way
+    let gate = Gate { inner: spy, st: st.clone() };
+    let how = ops.bytes().fold(cap.unwrap_or(7) as u32, |a, b| a.wrapping_mul(31).wrapping_add(b as u32)) % 4;
+    let q = match how {
+        0 => QueuingMetricSink::from(gate),
+        1 => QueuingMetricSink::builder().with_error_handler(|_| {}).build(gate),
+        2 => QueuingMetricSink::builder().with_capacity(4096).with_error_handler(|_| {}).build(gate),
+        _ => QueuingMetricSink::builder().with_error_handler(|_| {}).with_capacity(4096).build(gate),
+    };
     let client = StatsdClient::from_sink("", q.clone());
     let mut got: Vec<Vec<u8>> = vec![];
     let (mut res, mut ns, mut accs) = (vec![], vec![], vec![]);
